@@ -25,7 +25,7 @@ func Tick() int64 { return clock.Add(1) }
 // LogEvent is one classified log line.
 type LogEvent struct {
 	Seq   int64
-	Class string // unknown-id | banpeer-error | ratelimit-error | respond-error | decode-error | unregistered | other-error
+	Class string // unknown-id | dup-response | banpeer-error | ratelimit-error | respond-error | decode-error | unregistered | other-error
 	Arg   string
 }
 
@@ -48,6 +48,8 @@ func (l *RecLogger) classify(msg string, others []interface{}) {
 	switch {
 	case strings.HasPrefix(msg, "Response message received for unknown request ID"):
 		cls = "unknown-id"
+	case strings.HasPrefix(msg, "Response message received more than once"):
+		cls = "dup-response"
 	case strings.HasPrefix(msg, "banPeer error"):
 		cls = "banpeer-error"
 	case strings.HasPrefix(msg, "Rate limit error"):
